@@ -1,4 +1,5 @@
 import GA.Proofs.EntryPost
+import GA.Proofs.EntryMerge
 /-
   C05 / C03 — what one regular-file entry leaves behind.  The statement is about the real sequence of
   system calls `createTarFile` issues (open+write, lchown, lsetxattr…, chmod, utimes) run on the kernel
@@ -33,5 +34,23 @@ theorem reg_entry_keeps_setid (dp : Path) (path xd : Str) (e : Entry) (o : Opts)
       ((createTarFileP path xd e o).run w).2.fs.inode i = some n ∧ n.perm = 0o7755 := by
   obtain ⟨i, n, hl, hi, _, _, hpm, _⟩ := reg_entry_exact dp path xd e o w hw hp hreg hnew hok
   exact ⟨i, n, hl, hi, by rw [hpm, hmode]; decide⟩
+
+/-- **a directory entry merges onto an existing directory**: if the path names a directory, then after a
+    successful `createTarFile` for a directory entry every path resolves to the same inode as before
+    (nothing beneath or beside it was created or removed), every other inode is unchanged, and the
+    directory itself has the entry's permission bits, clamped time and owner -/
+theorem dir_entry_merges (dp : Path) (path xd : Str) (e : Entry) (o : Opts) (w : World)
+    (hw : LW dp w) (hp : LexArg dp path) (hdir : e.typ = .dir) (i : Ino) (n0 : Inode)
+    (hl : w.fs.lookup (pathComps path) = some i) (hi : w.fs.inode i = some n0) (hk : n0.kind = .dir)
+    (hok : ((createTarFileP path xd e o).run w).1 = .ok) :
+    (∀ p, ((createTarFileP path xd e o).run w).2.fs.lookup p = w.fs.lookup p) ∧
+    (∀ j, j ≠ i → ((createTarFileP path xd e o).run w).2.fs.inode j = w.fs.inode j) ∧
+    ∃ n, ((createTarFileP path xd e o).run w).2.fs.inode i = some n ∧ n.kind = .dir ∧
+      n.perm = e.mode &&& 0o7777 ∧ n.mtime = some (boundTime e.mtime) ∧
+      (o.noLchown = false → (n.uid, n.gid) = o.chownOpts.getD (e.uid, e.gid)) := by
+  have h := createTarFile_dir_merges dp path xd e o hp hdir i w w
+    ⟨hw, hl, ⟨n0, hi, hk⟩, Frame.refl i w⟩ hok
+  obtain ⟨_, _, ⟨n, hn, hf⟩, hfr⟩ := h
+  exact ⟨hfr.1, hfr.2, n, hn, hf.1, hf.2.1, hf.2.2.1, hf.2.2.2⟩
 
 end GA.C05
